@@ -31,7 +31,7 @@ CLAIMED = {
    text="For every connected framework with <=3 arguments (complete choice tree), all U(<=2)+U(<=2) unions (sum of component bounds), connected members of S (D<=1/2) and thorough connected U(4) (D<=1): the maximum number of SAT calls over ALL oracle behaviours is compared with the property's bound computed from the reference model; a counting oracle aborts at bound+2 so divergence is a finite counter-example; no candidate handed twice (PR) / more than twice (ID) to one solver object; DS-PR also on the admissibility encoder; the dynamic preferred solver on every connected framework with <=3 arguments.",
    note="bound formulas are the property's own; disconnected frameworks only checked against the implied sum", ref="4 C18"),
  "C10": dict(engine="E3 + all-SAT", technique="exhaustive enumeration of all models of every generated CNF over all small frameworks",
-   text="For every labelled digraph with <=4 arguments, sparse 5-argument iso-classes and a hybrid-threshold family (both sides of the switch observed), every public encoder (7 constructors + the 2 default factories) x {plain, range} x {attacks once, repeated through the ICCMA reader}: the CNF is captured by a recording solver and ALL its models are enumerated by the harness all-SAT; projected model set = reference family (both inclusions), range soundness/completeness, variable layout, assignment_to_extension on every model; encoder objects re-used across frameworks.",
+   text="For every labelled digraph with <=4 arguments, sparse 5- and 6-argument iso-classes and a hybrid-threshold family (both sides of the switch observed), every public encoder (7 constructors + the 2 default factories) x {plain, range} x {attacks once, repeated through the ICCMA reader}: the CNF is captured by a recording solver and ALL its models are enumerated by the harness all-SAT; projected model set = reference family (both inclusions), range soundness/completeness, variable layout, assignment_to_extension on every model; encoder objects re-used across frameworks.",
    note="trusted: harness all-SAT (self-checked), reference families; compact ids only, as the property states", ref="4 C10"),
  "C12": dict(engine="E2 stateful BFS", technique="explicit-state BFS over update histories with deduplication on the full concrete state",
    text="Stateful breadth-first exploration of AAFramework<usize> and AAFramework<String> over 2 labels (depth 11/13) and 3 labels (depth 8/9), from three constructors, every operand combination in every state; every observable compared with a set-based reference after EVERY step of every replay; rejected / redundant updates must leave the concrete state byte-identical.",
@@ -49,7 +49,7 @@ CLAIMED = {
    text="(1) every DIMACS instance written by static and dynamic solvers on the small universe, and during C15's scripted long sessions (up to megabytes of clause text), is parsed strictly by the stand-in program; (2) every reply of <=3 (thorough 4) lines over a 17-line alphabet is interpreted and compared with a strict output-format parser; (3) models/extsat.pml: all interleavings of parent, writer thread and child over two bounded pipes for every scenario (6 child behaviours x instance x reply sizes), explored by spin for both parent orders; the 72-scenario grid is replayed on the real ExternalSatSolver under a watchdog (reply sizes around the real pipe capacity) and compared with the model of the required order; parent syscall order validated with strace.",
    note="the OS scheduler is not controlled on the real code; interleaving coverage is on the model, binding is by outcome table + syscall order", ref="2.4, 4 C16"),
  "C19": dict(engine="E3", technique="exhaustive small-scope enumeration against all complete extensions",
-   text="EquivalencyComputer on every labelled digraph with <=4 arguments and all 7.1 M labelled 5-argument digraphs with <=10 attacks (thorough: all 33.5 M), in compact, duplicate-attack and reversed-insertion-order presentation: every pair of merged arguments compared on ALL complete extensions; partition, totality, inverse mappings, reduced labels.",
+   text="EquivalencyComputer on every labelled digraph with <=4 arguments and all 7.1 M labelled 5-argument digraphs with <=10 attacks (thorough: all 33.5 M) and every isomorphism class of the 6-argument digraphs with <=7 (8) attacks in three numberings, in compact, duplicate-attack and reversed-insertion-order presentation: every pair of merged arguments compared on ALL complete extensions; partition, totality, inverse mappings, reduced labels.",
    note="soundness of merging only; nothing demanded about coarseness", ref="4 C19"),
  "C05": dict(engine="E5 process sweep", technique="exhaustive enumeration of command-line invocations as real processes, judged by the reference model",
    text="Every (instance file, problem, argument, option configuration) of a finite product is run as a real process of crustabri solve and crustabri_iccma23: thorough = U(<=2) x 21 problems x arguments x 3 reader settings x 4 encodings x certificate x logging, all 104 classes of U(3) and S with a reduced product (~85 k processes); quick = the same product on <=1 argument, reduced on 2 arguments, minimal on 6 three-argument classes, chains and 2 members of S, each also through --external-sat-solver with a stand-in backend reporting the smallest / largest model (~7.6 k processes). stdout parsed with the answer grammar and judged semantically; 296 malformed invocations of 40 classes must exit non-zero without any answer line; the --problems listing must be exactly the 21 accepted problems (three spellings).",
